@@ -508,7 +508,7 @@ def check_source(ctx, c, fn, src, funcname, operand_names, exprs, deps):
         ctx.ok(c, fn, emitted=src)
 
 
-@rule("C08.emitted-source", props=["C08", "C02", "C13", "C12", "C11"], min_instances=9, mutants=[
+@rule("C08.emitted-source", props=["C08", "C02", "C13", "C12", "C11", "C06", "C07"], min_instances=9, mutants=[
     ("one zero expression zeroes the whole result", ("codegen", "    if not any(_exprs):", "    if not all(_exprs):")),
     ("func_builder unpacks sorted names", ("codegen", "            body += f'    [{\", \".join(str(v) for v in mv.values())}] = {arg}\\n'", "            body += f'    [{\", \".join(sorted(str(v) for v in mv.values()))}] = {arg}\\n'")),
     ("func_builder unpacks without the list brackets (a single name is bound to the whole sequence)", ("codegen", "            body += f'    [{\", \".join(str(v) for v in mv.values())}] = {arg}\\n'", "            body += f'    {\", \".join(str(v) for v in mv.values())} = {arg}\\n'")),
